@@ -515,10 +515,10 @@ func checkBackoffCaps(c *Ctx, r *Report) {
 // ---------------- C08 ----------------
 
 type breakerSpec struct {
-	Pkg, Type       string
-	FailField       string
-	LastFailField   string
-	PlainFields     []string // plain ints that must be accessed via sync/atomic (empty for atomic.IntNN-typed breakers)
+	Pkg, Type        string
+	FailField        string
+	LastFailField    string
+	PlainFields      []string // plain ints that must be accessed via sync/atomic (empty for atomic.IntNN-typed breakers)
 	ExplicitHalfOpen bool     // RecordFailure has an explicit half-open → open branch
 }
 
@@ -1011,7 +1011,6 @@ func isRetryCancelledExit(ret *ssa.Return) bool {
 	}
 	return false
 }
-
 
 // hasGuardFacts: some dominating condition compares endpoint statuses (the recovery guard lives here).
 func hasGuardFacts(at ssa.Instruction) bool {
